@@ -1443,7 +1443,17 @@ int bufr_apply_tables2node
         
          if (ddo->change_ref_val_op > 0)
             {
-            bufr_apply_op_crefval( ddo, cb, tmplt );
+/*
+ * every element descriptor between 2 03 YYY and 2 03 255 defines a new reference 
+ * value of YYY bits, whether or not a value is already attached to it
+ * (bufr_apply_op_crefval() only does this for a descriptor without a value)
+ */
+            cb->encoding.type = TYPE_CHNG_REF_VAL_OP;
+            cb->encoding.reference = 0;
+            cb->encoding.scale = 0;
+            cb->encoding.af_nbits = 0;
+            cb->encoding.ref_nbits = 0;
+            cb->encoding.nbits = ddo->change_ref_val_op;
             }
          else
             {
